@@ -286,6 +286,11 @@ def run_case(case):
         args, names = _mk_args(S, case)
         a = case["argnum"]
         ashape = tuple(case["shapes"][a])
+        frozen = []
+        for v in args:  # C10: inputs and captured constants are frozen; any in-place write into them raises
+            if isinstance(v, onp.ndarray):
+                v.flags.writeable = False
+                frozen.append((v, v.copy()))
         f = lambda z: f0(anp, *[z if i == a else v for i, v in enumerate(args)])
         try:
             plain = f(args[a])
@@ -342,6 +347,9 @@ def run_case(case):
             shape_ok, bad_msg, reuse_ok = True, None, True
             for G in Gs:
                 ge = H.entries(G)
+                if isinstance(G, onp.ndarray):
+                    G.flags.writeable = False
+                    frozen.append((G, G.copy()))
                 r = vjp(G)
                 rs = H.shape_of(r)
                 if rs != ashape:
@@ -352,7 +360,7 @@ def run_case(case):
                 exp = [sum((g * J[o][i] for o, g in enumerate(ge)), zero) for i in range(n_in)]
                 bad = [i for i in range(n_in) if not same(re_[i], exp[i])]
                 if bad and not (bad_msg and bad_msg.startswith("entry")):
-                    bad_msg = f"entry {bad[0]}: vjp gives {re_[bad[0]]}, J^T g = {exp[bad[0]]}" + (f" for g = unit({Gs.index(G) if flt else 0})" if flt else "")
+                    bad_msg = f"entry {bad[0]}: vjp gives {re_[bad[0]]}, J^T g = {exp[bad[0]]}" + (" for a unit cotangent" if flt else "")
                 r2 = H.entries(vjp(G))
                 reuse_ok = reuse_ok and all(same(x, y) for x, y in zip(r2, re_))
             out.append(("X-shape", shape_ok, f"vjp result shape equals argument shape {ashape}" if shape_ok else bad_msg))
@@ -364,7 +372,10 @@ def run_case(case):
         except ZeroDivisionError:
             out.append(("X-vjp", False, "exact division by zero inside the rule: in float arithmetic this is a silent nan/inf, not an exception"))
         except Exception as e:
-            out.append(("X-vjp-raises", True, f"{type(e).__name__}: {str(e)[:100]}"))
+            if isinstance(e, ValueError) and "read-only" in str(e):
+                out.append(("X-frozen", False, f"reverse mode wrote into frozen (foreign) memory: {str(e)[:80]}"))
+            else:
+                out.append(("X-vjp-raises", True, f"{type(e).__name__}: {str(e)[:100]}"))
         # ---- forward mode
         try:
             jshape_ok, jbad = True, None
@@ -389,7 +400,15 @@ def run_case(case):
         except ZeroDivisionError:
             out.append(("X-jvp", False, "exact division by zero inside the rule: in float arithmetic this is a silent nan/inf, not an exception"))
         except Exception as e:
-            out.append(("X-jvp-raises", True, f"{type(e).__name__}: {str(e)[:100]}"))
+            if isinstance(e, ValueError) and "read-only" in str(e):
+                out.append(("X-frozen", False, f"forward mode wrote into frozen (foreign) memory: {str(e)[:80]}"))
+            else:
+                out.append(("X-jvp-raises", True, f"{type(e).__name__}: {str(e)[:100]}"))
+        try:
+            unchanged = all(v.shape == c.shape and all((same(float(p), float(q)) if flt else (p == q)) for p, q in zip(v.ravel().tolist(), c.ravel().tolist())) for v, c in frozen)
+        except Exception:
+            unchanged = False
+        out.append(("X-frozen", unchanged, "inputs, captured constants and cotangents are unchanged after the reverse and forward passes"))
         # ---- second order (scalarised with symbolic weights c): Hessian exact + symmetric, mixed mode agrees
         if case.get("second") and case["mode"] == "sym" and n_in <= 6 and len(pe) <= 6:
             try:
@@ -436,7 +455,7 @@ def _worker(case):
 
 CLAUSE_PROPS = {
     "C01": ("X-vjp", "X-shape"), "C02": ("X-jvp", "X-jvp-shape"), "C04": ("X-vjp", "X-jvp"), "C05": ("X-shape", "X-jvp-shape"), "C06": ("X-value",),
-    "C07": ("X-hess",), "C10": ("X-reuse",), "C11": ("X-vjp", "X-jvp", "X-shape", "X-hess"),
+    "C07": ("X-hess",), "C10": ("X-reuse", "X-frozen"), "C11": ("X-vjp", "X-jvp", "X-shape", "X-hess"),
 }
 
 
